@@ -77,3 +77,97 @@ theorem indexRollU_single (s : Shape) (d : Idx) (shift axis : Int) (k : Nat)
   rw [i2u_normalizeRollIndex s[k] d[k] shift hxk h1 h2]
 
 end NmVerif.Index
+
+namespace NmVerif.Index
+
+/-- `ks` are the normalised (`normalize_axis`) positions of the accepted axis list `axes` of an array of rank `n` -/
+inductive AxesNorm (n : Nat) : List Int → List Nat → Prop
+  | nil : AxesNorm n [] []
+  | cons {ax : Int} {k : Nat} {axes : List Int} {ks : List Nat} :
+      normalizeAxis1 ax n = some k → AxesNorm n axes ks → AxesNorm n (ax :: axes) (k :: ks)
+
+/-- one step of the axis loop on accepted arguments -/
+theorem indexRollLoop_cons (s : Shape) (d : Idx) (hd : InShape d s) (ax : Int) (axes : List Int) (sh : Int) (shifts : List Int)
+    (res : Idx) (hres : res.length = d.length) (k : Nat) (hk : normalizeAxis1 ax s.length = some k)
+    (n x : Nat) (hn : s[k]? = some n) (hx : d[k]? = some x) (h1 : -(n : Int) ≤ sh) (h2 : sh ≤ (n : Int)) :
+    indexRollLoop s d (ax :: axes) (sh :: shifts) res =
+      indexRollLoop s d axes shifts (res.set k (rollSrc n x sh)) := by
+  obtain ⟨hkn, hpos⟩ := normalizeAxis1_some ax _ k hk
+  have hl := hd.length_eq
+  have hkd : k < d.length := by omega
+  have e1 : s[k] = n := by simpa [hkn] using hn
+  have e2 : d[k] = x := by simpa [hkd] using hx
+  have hxk : x < n := by
+    have := ((inShape_iff_forall _ _).1 hd).2 k hkd hkn
+    omega
+  simp only [indexRollLoop, atPy, hpos, hl, Option.bind_some, hn, hx, setPy, hres]
+  rw [i2u_normalizeRollIndex n x sh hxk h1 h2]
+
+/-- the axis loop with pairwise distinct accepted axes: every listed axis gets NumPy's source position, the others are copied -/
+theorem indexRollLoop_spec (s : Shape) (d : Idx) (hd : InShape d s) :
+    ∀ (axes : List Int) (ks : List Nat) (shifts : List Int) (res : Idx),
+      AxesNorm s.length axes ks →
+      shifts.length = axes.length →
+      (∀ (i k : Nat) (sh : Int), ks[i]? = some k → shifts[i]? = some sh → ∃ n : Nat, s[k]? = some n ∧ -(n : Int) ≤ sh ∧ sh ≤ (n : Int)) →
+      res.length = d.length →
+      ∃ r, indexRollLoop s d axes shifts res = some r ∧ r.length = d.length ∧
+        ∀ j, (j ∉ ks → r[j]? = res[j]?) ∧
+          (ks.Nodup → ∀ (i : Nat) (sh : Int), ks[i]? = some j → shifts[i]? = some sh →
+            ∃ n x : Nat, s[j]? = some n ∧ d[j]? = some x ∧ r[j]? = some (rollSrc n x sh)) := by
+  intro axes
+  induction axes with
+  | nil =>
+    intro ks shifts res hf _ _ hres
+    cases hf
+    exact ⟨res, by simp [indexRollLoop], hres, fun j => ⟨fun _ => rfl, fun _ i sh hi => by simp at hi⟩⟩
+  | cons ax axes ih =>
+    intro ks shifts res hf hlen hb hres
+    cases hf with
+    | cons hk hf' =>
+      rename_i k ks'
+      cases shifts with
+      | nil => simp at hlen
+      | cons sh shifts' =>
+        obtain ⟨n, hn, h1, h2⟩ := hb 0 k sh (by simp) (by simp)
+        obtain ⟨hkn, _⟩ := normalizeAxis1_some ax _ k hk
+        have hl := hd.length_eq
+        have hkd : k < d.length := by omega
+        have hx : d[k]? = some d[k] := by simp [hkd]
+        rw [indexRollLoop_cons s d hd ax axes sh shifts' res hres k hk n d[k] hn hx h1 h2]
+        obtain ⟨r, hr, hrl, hspec⟩ := ih ks' shifts' (res.set k (rollSrc n d[k] sh)) hf' (by simpa using hlen)
+          (fun i k' sh' hi hs => hb (i + 1) k' sh' (by simpa using hi) (by simpa using hs)) (by simpa using hres)
+        refine ⟨r, hr, hrl, fun j => ⟨?_, ?_⟩⟩
+        · intro hj
+          simp only [List.mem_cons, not_or] at hj
+          rw [(hspec j).1 hj.2, List.getElem?_set]
+          simp [Ne.symm hj.1]
+        · intro hnd i sh'' hi hs
+          simp only [List.nodup_cons] at hnd
+          cases i with
+          | zero =>
+            simp only [List.getElem?_cons_zero, Option.some.injEq] at hi hs
+            subst hi hs
+            refine ⟨n, d[k], hn, hx, ?_⟩
+            rw [(hspec k).1 hnd.1, List.getElem?_set]
+            simp [hres, hkd]
+          | succ i =>
+            exact (hspec j).2 hnd.2 i sh'' (by simpa using hi) (by simpa using hs)
+
+end NmVerif.Index
+
+namespace NmVerif.Index
+
+theorem AxesNorm.length_eq {n : Nat} {axes : List Int} {ks : List Nat} (h : AxesNorm n axes ks) : ks.length = axes.length := by
+  induction h with
+  | nil => rfl
+  | cons _ _ ih => simp [ih]
+
+theorem shapeRoll_of_axesNorm (s : Shape) (axes : List Int) (ks : List Nat) (h : AxesNorm s.length axes ks) :
+    shapeRoll s axes = some s := by
+  have : axes.all (fun a => (normalizeAxis1 a s.length).isSome) = true := by
+    induction h with
+    | nil => rfl
+    | cons hk _ ih => simp [hk, ih]
+  simp [shapeRoll, this]
+
+end NmVerif.Index
